@@ -1,3 +1,4 @@
+import PynProps.C05
 import PynProofs.Search
 import PynModel.Kernels.Process
 /-!
@@ -6,9 +7,12 @@ Models: `Pyn.crossCorrelogram` (`_cross_correlogram`, doubled integer times so t
 offset of the window stays exact), `Pyn.ssLeft` (the two `np.searchsorted` calls of `_align_tsd`),
 `Pyn.continuousPerievent`.
 
-Proved: the peri-event window (`compute_perievent`) and the innermost bin-count scan of the
-correlogram.  The sliding lower index of the correlogram and the nearest-sample search of the
-continuous peri-event are decided by oracle + correspondence only.
+Proved: the peri-event window (`compute_perievent`), and that **the correlogram is the histogram of
+lags** (`xcorr_histogram`: for sorted trains of any lengths the raw count of bin `p` is the number of
+(reference, target) pairs whose lag lies in the half-open bin `[(p − N/2)·b, (p + 1 − N/2)·b)`, via the
+sliding lower index `ccFwd_spec` / `ccBack_id`, the bin scan `ccCount_counts`, `ccBins_counts`,
+`ccOuter_counts`).  Normalisations and the nearest-sample search of the continuous peri-event are
+decided by oracle + correspondence (safety of that kernel: C15 `pericont_safe`).
 -/
 namespace Pyn.C16
 open Pyn
@@ -42,6 +46,219 @@ theorem ccCount_spec (t2 : Array Int) (rb : Int) (l k : Nat) :
 /-- number of bins is odd (so that one bin is centred on lag 0) -/
 theorem nbins_odd (b w : Int) : ccNbins b w % 2 = 1 := by
   unfold ccNbins; simp only; split <;> omega
+
+/-! ## the correlogram is the histogram of lags -/
+
+/-- number of target spikes whose doubled time lies in `[a, b)` -/
+def cnt2 (t2 : Array Int) (a b : Int) : Nat :=
+  ((List.range t2.size).filter fun i => decide (a ≤ 2 * t2[i]!) && decide (2 * t2[i]! < b)).length
+
+theorem ccFwd_spec (t2 : Array Int) (lb : Int) (i2 : Nat) (h : i2 ≤ t2.size)
+    (hlow : ∀ i, i < i2 → (hi : i < t2.size) → 2 * t2[i] < lb) :
+    i2 ≤ (ccFwd t2 lb i2 h).1 ∧ (∀ i, i < (ccFwd t2 lb i2 h).1 → (hi : i < t2.size) → 2 * t2[i] < lb) ∧
+    ((hr : (ccFwd t2 lb i2 h).1 < t2.size) → lb ≤ 2 * t2[(ccFwd t2 lb i2 h).1]) := by
+  induction hn : t2.size - i2 generalizing i2 with
+  | zero =>
+    unfold ccFwd
+    have : ¬ i2 < t2.size := by omega
+    simp only [dif_neg this]
+    exact ⟨Nat.le_refl _, hlow, fun hr => by omega⟩
+  | succ n ih =>
+    unfold ccFwd
+    have hi : i2 < t2.size := by omega
+    simp only [dif_pos hi]
+    split
+    · rename_i hlt
+      obtain ⟨a, b, c⟩ := ih (i2+1) hi (fun i h1 h2 => by
+        by_cases e : i = i2
+        · subst e; exact hlt
+        · exact hlow i (by omega) h2) (by omega)
+      exact ⟨by omega, b, c⟩
+    · rename_i hge
+      exact ⟨Nat.le_refl _, hlow, fun _ => by show lb ≤ 2 * t2[i2]; omega⟩
+
+theorem ccBack_id (t2 : Array Int) (lb : Int) (r : Nat) (h : r ≤ t2.size)
+    (hlow : ∀ i, i < r → (hi : i < t2.size) → 2 * t2[i] < lb) : (ccBack t2 lb r h).1 = r := by
+  cases r with
+  | zero => simp [ccBack]
+  | succ i =>
+    unfold ccBack
+    have := hlow i (by omega) (by omega)
+    have hn : ¬ 2 * t2[i] > lb := by omega
+    simp [hn]
+
+theorem ccCount_le (t2 : Array Int) (b : Int) (l k : Nat) (hl : l ≤ t2.size) : (ccCount t2 b l k).1 ≤ t2.size := by
+  induction hn : t2.size - l generalizing l k with
+  | zero =>
+    unfold ccCount
+    have : ¬ l < t2.size := by omega
+    simp only [dif_neg this]; exact hl
+  | succ n ih =>
+    unfold ccCount
+    have hi : l < t2.size := by omega
+    simp only [dif_pos hi]
+    split
+    · exact ih (l+1) (k+1) hi (by omega)
+    · exact hl
+
+/-- count of the scan from a partition point -/
+theorem ccCount_counts (t2 : Array Int) (hs : Sorted t2) (a b : Int) (l : Nat) (hl : l ≤ t2.size)
+    (hlow : ∀ i, i < l → (hi : i < t2.size) → 2 * t2[i] < a)
+    (hhigh : ∀ i, l ≤ i → (hi : i < t2.size) → a ≤ 2 * t2[i]) :
+    (ccCount t2 b l 0).2 = cnt2 t2 a b ∧ l ≤ (ccCount t2 b l 0).1 ∧ (ccCount t2 b l 0).1 ≤ t2.size ∧
+    (∀ i, i < (ccCount t2 b l 0).1 → (hi : i < t2.size) → l ≤ i → 2 * t2[i] < b) ∧
+    (∀ i, (ccCount t2 b l 0).1 ≤ i → (hi : i < t2.size) → b ≤ 2 * t2[i]) := by
+  obtain ⟨h1, h2, h3, h4⟩ := ccCount_spec t2 b l 0
+  have hle : (ccCount t2 b l 0).1 ≤ t2.size := ccCount_le t2 b l 0 hl
+  generalize (ccCount t2 b l 0) = r at h1 h2 h3 h4 hle
+  have hge : ∀ i, r.1 ≤ i → (hi : i < t2.size) → b ≤ 2 * t2[i] := by
+    intro i hi1 hi
+    have hr : r.1 < t2.size := by omega
+    have := h4 hr
+    have := hs r.1 i hr hi hi1
+    omega
+  refine ⟨?_, h1, hle, fun i hi1 hi hli => h3 i hli hi1 hi, hge⟩
+  rw [h2]
+  unfold cnt2
+  have e : ((List.range t2.size).filter fun i => decide (a ≤ 2 * t2[i]!) && decide (2 * t2[i]! < b)) =
+      ((List.range t2.size).filter fun i => decide (l ≤ i) && decide (i < r.1)) := by
+    apply List.filter_congr
+    intro i hi
+    simp only [List.mem_range] at hi
+    rw [getElem!_pos t2 i hi]
+    by_cases hli : l ≤ i
+    · have := hhigh i hli hi
+      by_cases hir : i < r.1
+      · have := h3 i hli hir hi
+        simp [hli, hir, *]
+      · have := hge i (by omega) hi
+        have hn : ¬ 2 * t2[i] < b := by omega
+        simp [hli, hir, hn]
+    · have := hlow i (by omega) hi
+      have hn : ¬ a ≤ 2 * t2[i] := by omega
+      simp [hli, hn]
+  rw [e, C05.filter_range_interval t2.size l r.1 h1 hle]
+  omega
+
+theorem ccBins_counts (t2 : Array Int) (hs : Sorted t2) (bs2 : Int) (hbs : 0 < bs2) (nb j : Nat) (rb2 : Int) (leftb : Nat)
+    (C : Array Nat) (hl : leftb ≤ t2.size) (hj : j + nb ≤ C.size)
+    (hlow : ∀ i, i < leftb → (hi : i < t2.size) → 2 * t2[i] < rb2)
+    (hhigh : ∀ i, leftb ≤ i → (hi : i < t2.size) → rb2 ≤ 2 * t2[i]) :
+    (ccBins t2 bs2 nb j rb2 leftb C).size = C.size ∧
+    ∀ p, (hp : p < C.size) → (hp' : p < (ccBins t2 bs2 nb j rb2 leftb C).size) →
+      (ccBins t2 bs2 nb j rb2 leftb C)[p] = C[p] +
+        (if j ≤ p ∧ p < j + nb then cnt2 t2 (rb2 + ((p - j : Nat) : Int) * bs2) (rb2 + (((p - j : Nat) : Int) + 1) * bs2) else 0) := by
+  induction nb generalizing j rb2 leftb C with
+  | zero =>
+    simp only [ccBins]
+    refine ⟨trivial, fun p hp hp' => ?_⟩
+    have : ¬ (j ≤ p ∧ p < j + 0) := by omega
+    rw [if_neg this]; rfl
+  | succ nb ih =>
+    simp only [ccBins]
+    obtain ⟨c1, c2, c3, c4, c5⟩ := ccCount_counts t2 hs rb2 (rb2 + bs2) leftb hl hlow hhigh
+    have hsz : (C.modify j (· + (ccCount t2 (rb2 + bs2) leftb 0).2)).size = C.size := by simp
+    obtain ⟨i1, i2⟩ := ih (j+1) (rb2 + bs2) (ccCount t2 (rb2 + bs2) leftb 0).1
+      (C.modify j (· + (ccCount t2 (rb2 + bs2) leftb 0).2)) c3 (by rw [hsz]; omega)
+      (fun i hi1 hi => by
+        by_cases hli : leftb ≤ i
+        · exact c4 i hi1 hi hli
+        · have := hlow i (by omega) hi; omega)
+      c5
+    refine ⟨by rw [i1, hsz], ?_⟩
+    intro p hp hp'
+    rw [i2 p (by rw [hsz]; exact hp) hp', Array.getElem_modify]
+    by_cases hpj : p = j
+    · subst hpj
+      have h1 : ¬ (p + 1 ≤ p ∧ p < p + 1 + nb) := by omega
+      have h2 : (p ≤ p ∧ p < p + (nb + 1)) := by omega
+      simp only [h1, h2, if_false, if_true, Nat.sub_self, c1]
+      simp
+    · have hne : ¬ j = p := fun e => hpj e.symm
+      simp only [hne, if_false]
+      by_cases hin : j + 1 ≤ p ∧ p < j + 1 + nb
+      · have h2 : j ≤ p ∧ p < j + (nb + 1) := by omega
+        simp only [hin, h2, and_self, if_true]
+        have e1 : ((p - (j + 1) : Nat) : Int) = ((p - j : Nat) : Int) - 1 := by omega
+        rw [e1]
+        have e2 : rb2 + bs2 + (((p - j : Nat) : Int) - 1) * bs2 = rb2 + ((p - j : Nat) : Int) * bs2 := by
+          rw [Int.sub_mul]; omega
+        have e3 : rb2 + bs2 + (((p - j : Nat) : Int) - 1 + 1) * bs2 = rb2 + (((p - j : Nat) : Int) + 1) * bs2 := by
+          rw [Int.sub_add_cancel, Int.add_mul]; omega
+        rw [e2, e3]
+      · have h2 : ¬ (j ≤ p ∧ p < j + (nb + 1)) := by omega
+        simp only [hin, h2, if_false]
+
+/-- `Σ_{a = i}^{n-1} f a` -/
+def sumFrom (f : Nat → Nat) (i n : Nat) : Nat :=
+  if i < n then f i + sumFrom f (i+1) n else 0
+termination_by n - i
+
+theorem ccOuter_counts (t1 t2 : Array Int) (hs1 : Sorted t1) (hs2 : Sorted t2) (bs : Int) (hbs : 0 < bs) (nbins : Nat)
+    (i1 i2 : Nat) (h : i2 ≤ t2.size) (C : Array Nat) (hC : C.size = nbins)
+    (hlow : (hi1 : i1 < t1.size) → ∀ i, i < i2 → (hi : i < t2.size) → 2 * t2[i] < 2 * t1[i1] - nbins * bs) :
+    (ccOuter t1 t2 bs nbins i1 i2 h C).size = nbins ∧
+    ∀ p, (hp : p < nbins) → (hp' : p < (ccOuter t1 t2 bs nbins i1 i2 h C).size) →
+      (ccOuter t1 t2 bs nbins i1 i2 h C)[p] = C[p]'(hC ▸ hp) +
+        sumFrom (fun a => cnt2 t2 (2 * t1[a]! - nbins * bs + (p : Int) * (2 * bs))
+                                  (2 * t1[a]! - nbins * bs + ((p : Int) + 1) * (2 * bs))) i1 t1.size := by
+  induction hn : t1.size - i1 generalizing i1 i2 C with
+  | zero =>
+    unfold ccOuter
+    have hi : ¬ i1 < t1.size := by omega
+    simp only [dif_neg hi]
+    refine ⟨hC, fun p hp hp' => ?_⟩
+    unfold sumFrom; simp [hi]
+  | succ n ih =>
+    have hi : i1 < t1.size := by omega
+    unfold ccOuter
+    simp only [dif_pos hi]
+    have hl := hlow hi
+    obtain ⟨f1, f2, f3⟩ := ccFwd_spec t2 (2 * t1[i1] - nbins * bs) i2 h hl
+    have hb := ccBack_id t2 (2 * t1[i1] - nbins * bs) (ccFwd t2 (2 * t1[i1] - nbins * bs) i2 h).1
+      (ccFwd t2 (2 * t1[i1] - nbins * bs) i2 h).2 f2
+    have hhigh : ∀ i, (ccFwd t2 (2 * t1[i1] - nbins * bs) i2 h).1 ≤ i → (hi : i < t2.size) → 2 * t1[i1] - nbins * bs ≤ 2 * t2[i] := by
+      intro i hi1 hi
+      have hr : (ccFwd t2 (2 * t1[i1] - nbins * bs) i2 h).1 < t2.size := by omega
+      have := f3 hr
+      have := hs2 _ i hr hi hi1
+      omega
+    obtain ⟨g1, g2⟩ := ccBins_counts t2 hs2 (2 * bs) (by omega) nbins 0 (2 * t1[i1] - nbins * bs)
+      (ccBack t2 (2 * t1[i1] - nbins * bs) (ccFwd t2 (2 * t1[i1] - nbins * bs) i2 h).1 (ccFwd t2 (2 * t1[i1] - nbins * bs) i2 h).2).1
+      C (ccBack t2 _ _ _).2 (by omega) (by rw [hb]; exact f2) (by rw [hb]; exact hhigh)
+    obtain ⟨k1, k2⟩ := ih (i1+1) _ (ccBack t2 _ _ _).2 _ (by rw [g1, hC])
+      (fun hi1' i hi2 hi' => by
+        rw [hb] at hi2
+        have := f2 i hi2 hi'
+        have := hs1 i1 (i1+1) hi hi1' (by omega)
+        omega) (by omega)
+    refine ⟨k1, fun p hp hp' => ?_⟩
+    rw [k2 p hp hp', g2 p (by omega) (by rw [g1]; omega)]
+    have hin : 0 ≤ p ∧ p < 0 + nbins := by omega
+    simp only [hin, and_self, if_true, Nat.sub_zero]
+    conv => rhs; unfold sumFrom
+    simp only [hi, if_true, getElem!_pos t1 i1 hi]
+    omega
+
+/-- **the cross-correlogram is the histogram of lags.**  For non-decreasing reference and target spike
+trains of any lengths (coincident spikes, lags exactly on bin edges included) and `N = nbins` (odd) bins
+of width `b`: the raw count of bin `p` is the number of pairs (reference a, target c) whose lag
+`t2[c] - t1[a]` satisfies `(p - N/2)·b ≤ lag < (p + 1 - N/2)·b` (written doubled to stay in ℤ):
+half-open bins, the bin with `p = ⌊N/2⌋` centred on lag 0, every pair inside the window counted
+exactly once.  (The code then divides by `len(t1)·b`.) -/
+theorem xcorr_histogram (t1 t2 : Array Int) (hs1 : Sorted t1) (hs2 : Sorted t2) (b w : Int) (hb : 0 < b)
+    (p : Nat) (hp : p < ccNbins b w) :
+    ∃ hp' : p < (crossCorrelogram t1 t2 b w).size,
+      (crossCorrelogram t1 t2 b w)[p] =
+        sumFrom (fun a => cnt2 t2 (2 * t1[a]! - (ccNbins b w : Int) * b + (p : Int) * (2 * b))
+                                  (2 * t1[a]! - (ccNbins b w : Int) * b + ((p : Int) + 1) * (2 * b))) 0 t1.size := by
+  unfold crossCorrelogram
+  obtain ⟨k1, k2⟩ := ccOuter_counts t1 t2 hs1 hs2 b hb (ccNbins b w) 0 0 (Nat.zero_le _)
+    (Array.replicate (ccNbins b w) 0) (by simp) (fun _ i hi => by omega)
+  refine ⟨by rw [k1]; exact hp, ?_⟩
+  rw [k2 p hp (by rw [k1]; exact hp)]
+  simp
+
 
 /-! concrete correlograms: reference [0,10], target [1,2,11], bin 1, window 3 → 7 bins centred on
 -3..3; lag 1 twice (1-0, 11-10), lag 2 once; a lag exactly on a bin edge (0.5 with bin 1, here in
